@@ -30,11 +30,12 @@ type st = {
   mutable carea : float option;
   mutable minsep : float;
   mutable pair : (float array * float array * string * string * float) option;
+  mutable lj2 : (lj * lj * float * float) option;
 }
 
 let fresh () = { spec = ""; syms = []; site = None; cell = None; kind = '?'; segs = []; discs = []; ljs = [];
                  radius = 0.; area = 0.; rel = []; cart = []; img_hdr = None; imgs = []; score = None;
-                 carea = None; minsep = nan; pair = None }
+                 carea = None; minsep = nan; pair = None; lj2 = None }
 
 let tf_of_arr (a : float array) : tf =
   { a00 = f2c a.(0); a01 = f2c a.(1); a02 = f2c a.(2); a10 = f2c a.(3); a11 = f2c a.(4); a12 = f2c a.(5);
@@ -70,7 +71,25 @@ let run_case (c : st) : string =
   let strength = ref 0 in
   let band = ref 0 in
   let upd k = if k > !strength then strength := k in
+  (match c.lj2 with
+   | Some (a, b, eab, eba) ->
+       (* the shifted energy is a difference of terms that can be far larger than the result: the
+          tolerance is relative to the magnitude of the terms (powi's multiplication order is not specified) *)
+       let terms (p : lj) (q : lj) : float =
+         let sg = c2f p.lsigma and ep = Float.abs (c2f p.leps) in
+         let r2 = (c2f p.lx -. c2f q.lx) ** 2. +. (c2f p.ly -. c2f q.ly) ** 2. in
+         let x = (sg *. sg /. r2) ** 3. in
+         let sh = match p.lcut with Some c -> (sg /. c2f c) ** 12. +. (sg /. c2f c) ** 6. | None -> 0. in
+         4. *. ep *. (x *. x +. x +. sh) in
+       let chk name m i scale =
+         let m = c2f m in
+         if same m i || (Float.is_nan m && Float.is_nan i) then ()
+         else if Float.abs (m -. i) <= 1e-12 *. (1. +. Float.abs i +. scale) then upd 1
+         else note (Printf.sprintf "%s: model %h (%g) impl %h (%g)" name m m i i) in
+       chk "energy(a,b)" (lj_energy numF powi a b) eab (terms a b); chk "energy(b,a)" (lj_energy numF powi b a) eba (terms b a)
+   | None -> ());
   (match c.pair with
+   | _ when c.lj2 <> None -> ()
    | Some (t1, t2, ab, ba, sep) ->
        let shape = if c.kind = 'P' then Poly c.segs else Mol c.discs in
        let s1 = shape_transform numF (tf_of_arr t1) shape in
@@ -189,6 +208,10 @@ let main (path : string) : unit =
              let a = Array.of_list r in
              c.pair <- Some (nine (Array.to_list (Array.sub a 0 9)), nine (Array.to_list (Array.sub a 9 9)),
                              a.(18), a.(19), float_of_hex a.(20))
+         | 'Z', [_; x1; y1; s1; e1; c1; x2; y2; s2; e2; c2; eab; eba] ->
+             c.lj2 <- Some ({ lx = h x1; ly = h y1; lsigma = h s1; leps = h e1; lcut = Option.map f2c (opt_float_of_tok c1) },
+                            { lx = h x2; ly = h y2; lsigma = h s2; leps = h e2; lcut = Option.map f2c (opt_float_of_tok c2) },
+                            float_of_hex eab, float_of_hex eba)
          | 'E', _ ->
              let r = (try run_case c with e -> "MISMATCH exception " ^ Printexc.to_string e) in
              Printf.printf "R %s | %s\n" c.spec r
